@@ -556,3 +556,30 @@ def inline_calls(facts, e, depth=4, only=None):
                     return inline_calls(facts, sub, depth - 1, only)
         return ("call", e[1], args)
     return tuple(inline_calls(facts, x, depth, only) if isinstance(x, tuple) and x and isinstance(x[0], str) else (tuple(inline_calls(facts, y, depth, only) for y in x) if isinstance(x, tuple) else x) for x in e)
+
+
+def debug_only_blocks(b):
+    """Blocks that exist only in builds with debug assertions: those dominated by the `true` edge of a switch on the
+    constant that `cfg!(debug_assertions)` expands to (debug_assert!, debug_assert_eq!, `if cfg!(debug_assertions)`).
+    The facts are extracted from a dev-profile build, where that constant is `true`; in the shipped (release) build the
+    code behind it is gone, so a check that exists only there must not be counted as a guard."""
+    dom = b.dominators()
+    out = set()
+    for bb in b.live_blocks():
+        t = b.term(bb)
+        if t["k"] != "switch":
+            continue
+        l = t["o"].get("mv") or t["o"].get("cp") if isinstance(t["o"], dict) else None
+        if not l or len(l) != 1:
+            continue
+        defs = [s_ for _, _, s_ in b.iter_assigns() if s_["p"] == l]
+        if len(defs) != 1:
+            continue
+        d = defs[0]
+        if d["r"]["k"] == "use" and isinstance(d["r"]["o"], dict) and "k" in d["r"]["o"] and d["r"]["o"]["k"].get("ty") == "bool" and "cfg" in str(d.get("x", "")):
+            ed = switch_edges(b, bb)
+            if ed is None:
+                continue
+            on = ed[1] if str(d["r"]["o"]["k"].get("v")) == "1" else ed[0]
+            out |= {x for x in b.live_blocks() if dominates(dom, on, x) and x != bb}
+    return out
